@@ -179,6 +179,64 @@ def run(pid: str, tier: str, seed: int, selftest=False, replay=None) -> int:
                               f"({len(bad)}/{len(vs)} oracles)",
                               {"source": c["text"], "before_csr": c["a_text"], "after_csr": c["b_text"],
                                "oracle": oracle_at(c, oi), "clause": verdict, "accdecl": c["extra"]["accdecl"]})
+    # ---- gemmx launch with per-channel rescale parameters (more output channels than the array is wide): the accelerator's own launch
+    # lowering (SNAXGEMMXAccelerator.lower_acc_launch), driven through the real convert-accfg-to-csr
+    import random as _random
+    grng = _random.Random(seed * 7 + 3)
+    gacc = repo.opt_main().ctx.get_acc("snax_gemmx")
+    gop = gacc.generate_acc_op()
+    fmap, lmap = {k: v.value.data for k, v in gop.field_items()}, {k: v.value.data for k, v in gop.launch_field_items()}
+    gcases = []
+    for k in range(12 if tier == "quick" else 150):
+        gn = gacc.n
+        groups = grng.choice([2, 3, 4])
+        mv = groups * grng.choice([1, 2, 5])
+        mults = [grng.choice([1, 3, 77, 100, 1234]) + c for c in range(groups * gn)]
+        # (shift bytes chosen so that the packed words stay inside the machine's integers: see DESIGN 1.3)
+        shifts = [(grng.choice([1, 4, 7, 9, 12]) if c % 4 < 2 else grng.choice([0, 3, 9, 14]) if c % 4 == 2 else 0) for c in range(groups * gn)]
+        lv = grng.choice([1, 3])
+        text = f"""builtin.module {{
+  {str(gop)}
+  func.func @f() {{
+    %lv = arith.constant {lv} : i5
+    %s = accfg.setup "snax_gemmx" to () : !accfg.state<"snax_gemmx">
+    %t = "accfg.launch"(%lv, %lv, %s) <{{param_names = ["launch_streamer", "launch_gemmx"], accelerator = "snax_gemmx"}}> {{m = {mv} : i32, mult_vals = array<i32: {", ".join(map(str, mults))}>, shift_vals = array<i32: {", ".join(map(str, shifts))}>}} : (i5, i5, !accfg.state<"snax_gemmx">) -> !accfg.token<"snax_gemmx">
+    "accfg.await"(%t) : (!accfg.token<"snax_gemmx">) -> ()
+    func.return
+  }}
+}}
+"""
+        name = f"gemmx-perchannel:{seed}:{k}:groups{groups}"
+        try:
+            gm = repo.parse(text)
+            gm.verify()
+        except Exception as e:
+            raise MachineryError(f"invalid gemmx launch module: {e}")
+        try:
+            repo.run_pipeline(gm, "convert-accfg-to-csr")
+            gm.verify()
+        except Exception as e:
+            rep.evaluations += 1
+            rep.violation(name, f"convert-accfg-to-csr raised {type(e).__name__}: {str(e)[:200]}", {"source": text, "exception": traceback.format_exc(limit=6)})
+            continue
+        gimg = image_of(funcs_of(gm)["f"])
+        gl = {"n": gn, "groups": groups, "m": mv, "ls": lv, "lg": lv, "aM": fmap["M"], "aTLB": fmap["temporal_loop_bound"], "aLS": lmap["launch_streamer"],
+              "aLG": lmap["launch_gemmx"], "ashift": [fmap[f"shift_{j}"] for j in range((gn + 3) // 4)], "amult": [fmap[f"mult_{c}"] for c in range(gn)],
+              "barrier": gop.barrier.value.data, "mults": mults, "shifts": shifts}
+        gcases.append({"name": name, "A": gimg, "B": gimg, "argdom": [], "opqdom": [[0]], "stdom": [[0, 2], [1, 0, 2]], "text": text,
+                       "b_text": str(funcs_of(gm)["f"])[:6000], "extra": {"gl": gl}})
+    if gcases:
+        r, per = run_pair_batch(pid, "gemmxlaunch", gcases, tag="gemmxlaunch")
+        rep.add_tlc(r)
+        rep.extra["gemmx_per_channel_launches"] = len(gcases)
+        for tid, vs in per.items():
+            c = gcases[tid - 1]
+            rep.evaluations += len(vs)
+            rep.traces += 1
+            bad = [v for v in vs if v[1] != "ok"]
+            if bad:
+                rep.violation(c["name"], f"gemmx per-channel launch: clause {bad[0][1]} fails ({len(bad)}/{len(vs)} oracles)",
+                              {"source": c["text"], "after_csr": c["b_text"], "clause": bad[0][1], "expected": c["extra"]["gl"]})
     # ---- map part: injectivity of the register map of every accelerator x configuration (shared enumeration with C08)
     import checks_regfile
     from objs import run_obj_batch
